@@ -189,9 +189,10 @@ def p_roundtrip(items):
 def p_maintainer(x):
     n, a = x
     v = '%s <%s>' % (n, a)
-    m = debcon.MaintainerField.from_value(v)
-    if (m.name, m.email_address) != (n, a) or m.dumps() != v:
-        return 'maintainer %r splits into (%r, %r) and prints %r' % (v, m.name, m.email_address, m.dumps())
+    for cls in (debcon.MaintainerField, _copy.dc.MaintainerField):
+        m = cls.from_value(v)
+        if (m.name, m.email_address) != (n, a) or m.dumps() != v:
+            return '%s.MaintainerField: %r splits into (%r, %r) and prints %r' % (cls.__module__.rpartition('.')[2], v, m.name, m.email_address, m.dumps())
     return None
 
 
@@ -262,8 +263,13 @@ def run(ctx):
     for _ in range(ctx.n(2500, 30000)):
         ns = rng.sample(CONTROL_NAMES[:30], rng.randint(1, 6))
         rts.append([[rng.choice(casings(n)), ' '.join(D.value_text(rng).split()) or 'v'] for n in ns])
+    # long relationship values (a rendering that folds long lines would not read back to the same mapping)
+    pk = ['libc6 (>= 2.17)', 'zlib1g', 'python3:any (>= 3.5~)', 'libfoo-dev | libbar-dev', 'debhelper (>= 9)', 'gcc [amd64]', 'perl', 'libssl1.1 (>= 1.1.0)']
+    for _ in range(ctx.n(300, 3000)):
+        long_v = ', '.join(rng.choice(pk) for _ in range(rng.randint(6, 14)))
+        rts.append([[rng.choice(['Depends', 'Build-Depends', 'Recommends', 'Description', 'X-Long']), long_v], ['Package', 'x']])
     fails += ctx.prop('prop:dumps-roundtrip', rts, p_roundtrip)
-    mnt = [(rng.choice(['Jane Doe', 'X', 'Debian QA Group', 'a b c', "O'Neil", 'j+k']), rng.choice(['a@b.c', 'jane.doe@example.org', 'x_y@z-q.net', 'a+b@c.d']))
+    mnt = [(rng.choice(['Jane Doe', 'X', 'Debian QA Group', 'a b c', "O'Neil", 'j+k', 'Joe Z. Doe', 'Jos\xe9 M\xfcller', 'A. B. C.', 'Dr. X']), rng.choice(['a@b.c', 'jane.doe@example.org', 'x_y@z-q.net', 'a+b@c.d']))
            for _ in range(ctx.n(300, 3000))]
     fails += ctx.prop('prop:maintainer', mnt, p_maintainer)
 
